@@ -68,10 +68,10 @@ def gen_move(rng):
     mi = rng.randrange(len(rtmodel.MAX_DTS))
     md = rtmodel.MAX_DTS[mi]
     a = rng.choice([0.0, 1.0, 10.0, -3.0, round(rng.uniform(-1e3, 1e3), 3), rng.uniform(-1e3, 1e3),
-                    rng.uniform(-10, 10)])
+                    rng.uniform(-10, 10), 1e5, 1e6, -2.5e5, round(rng.uniform(-1e6, 1e6), 2)])
     sgn = rng.choice([1.0, -1.0])
     kind = rng.choice(["zero", "tiny", "below9", "above9", "multiple", "multiple", "frac", "frac", "frac",
-                       "edge_up", "edge_dn", "random", "big"])
+                       "edge_up", "edge_dn", "random", "big", "frac_small"])
     if kind == "zero":
         d = 0.0
     elif kind == "tiny":
@@ -84,6 +84,9 @@ def gen_move(rng):
         d = rng.randint(1, 40) * md
     elif kind == "frac":
         d = (rng.randint(0, 40) + rng.random()) * md
+    elif kind == "frac_small":
+        # whole steps plus a remainder between a few nanoseconds and a millisecond
+        d = rng.randint(0, 40) * md + 10.0 ** rng.uniform(-8.5, -3)
     elif kind == "edge_up":
         d = md * (1 + 2.0 ** -52) * rng.randint(1, 5)
     elif kind == "edge_dn":
